@@ -1,4 +1,4 @@
-import VarmqVerif.Spec.Props2
+import VarmqVerif.Spec.Props3
 import Driver.Parse
 import Driver.Replay
 import Driver.Diff
@@ -29,7 +29,7 @@ def finish (sel : List String) (c : Cur) (e : EndInfo) : IO Unit := do
   let tr := c.obs.toList
   let mut summary := ""
   let mut viols : Array String := #[]
-  for (id, chk) in Spec.allChecks2 do
+  for (id, chk) in Spec.allChecks3 do
     if wanted sel id then
       let vs := chk c.params tr e
       summary := summary ++ s!" {id}={if vs.isEmpty then "ok" else "BAD"}"
@@ -83,7 +83,12 @@ partial def loop (h : IO.FS.Stream) (sel : List String) (c : Cur) : IO Unit := d
       -- the return line does not repeat the arguments: take the call from its call line
       let cl' := match c.calls.find? (·.1 == cid) with | some (_, x) => x | none => cl
       loop h sel { c with obs := c.obs.push (.ret g cid cl' r), nlines := c.nlines + 1, calls := c.calls.filter (·.1 != cid) }
-    | some o => loop h sel { c with obs := c.obs.push o, nlines := c.nlines + 1 }
+    | some .recover =>
+      -- a fresh process: object names start again, so the model replays start again
+      loop h sel { c with obs := c.obs.push .recover, nlines := c.nlines + 1, res := .ok (Res.init 1), job := .ok {}, sig := .ok {}, calls := [] }
+    | some o =>
+      let obs := match parseObs2 line with | some o2 => (c.obs.push o).push o2 | none => c.obs.push o
+      loop h sel { c with obs := obs, nlines := c.nlines + 1 }
     | none => loop h sel { c with nlines := c.nlines + 1 }
 
 def main (args : List String) : IO Unit := do
